@@ -8,7 +8,9 @@ import GoomVerif.Model.Stub
     `c20.admits <off> <min> <max> <len,…> <res,…> <ev,…>`   res = `o<addr-min>` | `e` | `n`; ev = `i<k>` | `r<k>`
         → `admitted` | `rejected` | `malformed`
     `c20.explains <off> <min> <max> <len,…> <res,…> <i,i,…>`   does this schedule reproduce every observed result?
-        → `explained` | `unexplained` | `malformed` -/
+        → `explained` | `unexplained` | `malformed`
+    `c20.writes <m|h> <len> <n>`   n successive stub.Write calls on one region of the mmap / reserve path
+        → `ok perm=<rwx|rx>` (protection left behind) | `fault@<k>` -/
 namespace Drv.C20
 open Stub
 
@@ -81,6 +83,20 @@ def handle (toks : List String) : Option String :=
         if !h.wellFormed then some "malformed" else some (if explains h σ then "explained" else "unexplained")
       | none => some "bad-op"
     | _, _, _, _, _ => some "bad-op"
+  | ["c20.writes", path, _len, n] =>
+    match parseNat n with
+    | some n =>
+      let typ := if path = "m" then typeMMap else typeHolder
+      if path ≠ "m" ∧ path ≠ "h" then some "bad-op" else
+      -- first failing write, if any
+      let rec firstFail (p : Perm) (k : Nat) (fuel : Nat) : String :=
+        match fuel with
+        | 0 => match p with | .rwx => "ok perm=rwx" | .rx => "ok perm=rx"
+        | fuel + 1 => match writeOnce typ p with
+          | none => s!"fault@{k}"
+          | some p' => firstFail p' (k + 1) fuel
+      some (firstFail (initPerm typ) 1 n)
+    | none => some "bad-op"
   | tok :: _ => if tok.startsWith "c20." then some "bad-op" else none
   | [] => none
 
